@@ -216,6 +216,9 @@ def check(program: Program, run: Run) -> None:
             nb += 1
             run.ob("C07/R5 " + o.rule[7:], o.subject, o.ok, o.detail, o.where)
     for fd in sub.findings:
+        if not fd.info and fd.key.startswith("C08/ctx-rederive:") and fd.key.rsplit(":", 1)[1] in ("quote_char", "alias_quote_char"):
+            run.finding("C07/quote-rederived:" + fd.key.split(":", 1)[1], "identifiers below this node are delimited by the quote character of the class the node was built with, not by the statement's: one statement mixes two identifier quote characters: " + fd.what,
+                        where=fd.where, rule="R5 (inherited from C08/R1)")
         if not fd.info and fd.key.startswith("C08/ctx-bypass:"):
             run.finding("C07/quote-context-bypass:" + fd.key.split(":", 1)[1], "names inside this child are written with the default context's quote character and without qualifier: " + fd.what,
                         where=fd.where, rule="R5 (inherited from C08)")
